@@ -415,7 +415,7 @@ def eager_cases(draw, tier):
 
 
 core.register("C18", [
-    Facet("eager_parse", eager_cases, check_eager, n_quick=1600,
+    Facet("eager_parse", eager_cases, check_eager, n_quick=3200,
           shards_quick=4, rule="sentences with a hidden reduction to the "
           "target and random ones; a returned parse has the words in order "
           "followed by cups of adjacent (x, x.r) pairs; a parse is only "
@@ -427,9 +427,9 @@ core.register("C18", [
     Facet("cfg", cfg_cases, check_cfg, n_quick=1200, shards_quick=4,
           rule="generated productions; sentences are derivations of the "
           "start symbol, bounded in number and depth, distinct when asked"),
-    Facet("biclosed2rigid", rule_cases, check_rule, n_quick=1600,
+    Facet("biclosed2rigid", rule_cases, check_rule, n_quick=3200,
           shards_quick=4, rule=RULE),
-    Facet("ccg_trees", tree_cases, check_tree, n_quick=900, shards_quick=2,
+    Facet("ccg_trees", tree_cases, check_tree, n_quick=1800, shards_quick=4,
           rule="CCG trees (ba/fa/fc/other, nested) with category strings "
           "printed from generated biclosed types"),
 ], rule=RULE, assumptions=[
